@@ -80,9 +80,17 @@ def run(cmd, timeout=60, cwd=None, env=None, input=None):
     e["LC_ALL"] = "C"
     if env:
         e.update(env)
+    def _limits():
+        # the extracted code recurses on Peano numbers and long lists
+        import resource
+        try:
+            resource.setrlimit(resource.RLIMIT_STACK, (resource.RLIM_INFINITY, resource.RLIM_INFINITY))
+        except (ValueError, OSError):
+            pass
     try:
         p = subprocess.run(cmd, cwd=cwd, env=e, input=input, stdout=subprocess.PIPE,
-                           stderr=subprocess.PIPE, timeout=timeout)
+                           stderr=subprocess.PIPE, timeout=timeout,
+                           preexec_fn=_limits if cmd and cmd[0] == DRIVER else None)
         return p.returncode, p.stdout, p.stderr
     except subprocess.TimeoutExpired as ex:
         return "timeout", ex.stdout or b"", ex.stderr or b""
@@ -249,6 +257,9 @@ class Check:
         for k, _, _, _ in self.violations:
             if k == key:
                 return True
+        if len(self.violations) >= 12:          # enough to act on; the count is kept
+            self.suppressed = getattr(self, 'suppressed', 0) + 1
+            return True
         h = hashlib.sha256((self.prop + key).encode()).hexdigest()[:12]
         path = os.path.join(VERIF, "replays", "%s-%s.json" % (self.prop, h))
         replay = dict(replay)
